@@ -94,7 +94,42 @@ def c05_suites(tier, seed):
     return s
 
 
+def c06_suites(tier, seed):
+    q = tier == "quick"
+    return [("rollback-ro", hists_of(jgen.gen_c06(seed, 60 if q else 1500))),
+            ("rollback-4096", hists_of(jgen.gen_c06(seed + 5, 10 if q else 200, pagesize=4096)))]
+
+
+def c03_suites(tier, seed):
+    q = tier == "quick"
+    return [("readers", hists_of(jgen.gen_c03(seed, 60 if q else 2000, k_readers=4 if q else 8)))]
+
+
+C16_PAGESIZES = [1024, 1032, 2048, 3000, 4096, 5000, 16384, 65536, 1048576]
+
+
+def c16_suites(tier, seed):
+    import random
+    q = tier == "quick"
+    r = random.Random(seed)
+    full = [(ps, np_, st, pop) for ps in C16_PAGESIZES for np_ in (4, 32, 1000) for st in (0, 1) for pop in (0, 1)]
+    if q:
+        # every page size, every page count, both strict / populate values appear; 14 of the 108 combinations
+        cfgs = [(ps, r.choice([4, 32, 1000]), r.randrange(2), r.randrange(2)) for ps in C16_PAGESIZES]
+        cfgs += [(1024, 4, 1, 1), (4096, 1000, 1, 0), (1032, 4, 0, 1), (5000, 32, 1, 1), (3000, 4, 1, 0)]
+        nbase = 6
+    else:
+        cfgs = full
+        nbase = 12
+    s = [("configs", hists_of(jgen.gen_c16(seed, nbase, cfgs)))]
+    s.append(("growth", hists_of(jgen.gen_growth(seed, 2 if q else 12))))
+    return s
+
+
 PROPS = {
+    "C03": {"suites": c03_suites, "level": "other", "corpus": ["C03"]},
+    "C06": {"suites": c06_suites, "level": "other", "corpus": ["C06"]},
+    "C16": {"suites": c16_suites, "level": "other", "corpus": ["C16"]},
     "C05": {"suites": c05_suites, "level": "other", "corpus": ["C05", "C01"]},
     "C01": {"suites": c01_suites, "level": "other", "corpus": ["C01", "C05", "C08", "C07"]},
     "C07": {"suites": c07_suites, "level": "proof", "corpus": ["C07", "C08"]},
